@@ -150,6 +150,7 @@ pub fn scenarios(tier: Tier) -> Vec<LinkScenario<fn() -> Box<dyn Probe>>> {
         ("unord 1+2401+1", vec![(1, 1), (1, 2401), (1, 1)], false),
         ("ord 1,1,1-per-tick", vec![(0, 1), (0, 1), (0, 1)], true),
         ("mixed ord 1201 + unord 1 + unrel 1", vec![(0, 1201), (1, 1), (2, 1)], false),
+        ("ord 500+500+500 (two packets in one tick)", vec![(0, 500), (0, 500), (0, 500)], false),
     ];
     let timings: Vec<(&str, Vec<u64>)> = vec![("dt=R/3", vec![100]), ("dt=R", vec![300]), ("dt=irregular", vec![100, 150, 300, 450])];
     let mut out: Vec<LinkScenario<fn() -> Box<dyn Probe>>> = vec![];
@@ -163,6 +164,7 @@ pub fn scenarios(tier: Tier) -> Vec<LinkScenario<fn() -> Box<dyn Probe>>> {
                         | ("unord 1+2401+1", "dt=R/3", 0)
                         | ("ord 1,1,1-per-tick", "dt=irregular", 1)
                         | ("mixed ord 1201 + unord 1 + unrel 1", "dt=R/3", 0)
+                        | ("ord 500+500+500 (two packets in one tick)", "dt=R/3", 1)
                 );
                 if tier == Tier::Quick && !quick_keep {
                     continue;
